@@ -39,9 +39,20 @@ class FuncInfo:
         n = node if node is not None else self.node
         return "%s:%s:%d" % (self.mod.relpath, self.qual, getattr(n, "lineno", self.node.lineno))
 
+    @property
+    def is_static(self):
+        return bool(self.cls) and any(isinstance(d, ast.Name) and d.id == "staticmethod" for d in self.node.decorator_list)
+
+    def opaque_decorators(self):
+        """decorators that change what a call executes (@staticmethod only changes how the receiver is passed)"""
+        return [d for d in self.node.decorator_list if not (isinstance(d, ast.Name) and d.id == "staticmethod")]
+
     def params(self):
         a = self.node.args
         names = [x.arg for x in a.posonlyargs + a.args]
+        if self.is_static:
+            # a static method takes no receiver: a placeholder keeps "first parameter of a method is the receiver" true for every client
+            return ["self"] + names
         return names
 
     def defaults(self):
